@@ -315,6 +315,25 @@ def wordcounterSlice : P String := do
   let name := match c with | .full => "Full" | .letter => "Letter" | .fast => "Fast"
   pure s!"{name} {c.count text.toList}"
 
+def factsP : P LinkScore.Facts := do
+  let absOK ← bool; let hasPrefix ← bool; let restHasDigit ← bool; let cleanOK ← bool
+  let href ← str
+  let eqCurrent ← bool; let eqFolder ← bool; let inFolder ← bool
+  let remainder ← str; let text ← str; let cls ← str; let id ← str
+  let n ← nat
+  let parents ← many n (do let c ← str; let i ← str; pure (c, i))
+  let current ← str
+  let prefixLen ← nat
+  pure ⟨absOK, hasPrefix, restHasDigit, cleanOK, href, eqCurrent, eqFolder, inFolder, remainder, text,
+    cls, id, parents, current, prefixLen⟩
+
+/-- `findoutlink next n facts*` → what `PrevNextFinder.FindOutlink` returns for the page -/
+def findoutlinkSlice : P String := do
+  let next ← bool
+  let n ← nat
+  let fs ← many n factsP
+  pure (hex (LinkScore.findOutlink next fs))
+
 /-- `linkscore next absOK hasPrefix restHasDigit cleanOK href eqCurrent eqFolder inFolder remainder text
 class id n (class id)* current prefixLen` → what the prev/next finder decides about the anchor -/
 def linkscoreSlice : P String := do
@@ -752,6 +771,7 @@ def dispatch (slice : String) : Option (P String) :=
   | "style" => some styleSlice
   | "candidates" => some candidatesSlice
   | "linkscore" => some linkscoreSlice
+  | "findoutlink" => some findoutlinkSlice
   | "pagediff" => some pagediffSlice
   | "pageinfo" => some pageinfoSlice
   | "strip" => some stripSlice
